@@ -143,9 +143,16 @@ def render_stmts(prog, ss, ind, out, sigs, cnt):
         k = s[0]
         if k == "var":
             v = s[1]
-            if v in VAR_SEED: out.append("%slet %s: S = mk(%d);" % (pad, vname(v), VAR_SEED[v]))
-            elif v == 999: out.append("%slet k: i32 = 1;" % pad)
-            else: out.append("%slet %s: i32 = 0;" % (pad, vname(v)))
+            # a third of the locals are declared without initialiser and assigned by the next statement: the checker must
+            # treat them like every other local (seed C07e: such locals were not recorded, `return &slot` accepted)
+            import zlib
+            late = zlib.crc32(repr((prog.body, v)).encode()) % 3 == 0
+            if v in VAR_SEED: init, ty = "mk(%d)" % VAR_SEED[v], "S"
+            elif v == 999: init, ty = "1", "i32"
+            else: init, ty = "0", "i32"
+            nm = "k" if v == 999 else vname(v)
+            if late: out.append("%slet %s: %s; %s = %s;" % (pad, nm, ty, nm, init))
+            else: out.append("%slet %s: %s = %s;" % (pad, nm, ty, init))
         elif k == "let":
             _, r, m, pl = s
             out.append("%slet %s: %s = %s%s;" % (pad, rname(r), ref_tyname(place_type(pl), m), "&'" if m else "&", r_place(pl)))
